@@ -24,7 +24,7 @@ package engine
 //@   oncall (*sync.Mutex).Unlock
 //@     before inlist[gw] := 0
 //@   ensures [C17] neverfails: result.1 == nil
-//@   ensures [C17] owned: wrapperOK(gp, result.0) && gget(inlist, result.0) == 0
+//@   ensures [C17,C06] owned: wrapperOK(gp, result.0) && gget(inlist, result.0) == 0
 //@   modifies gp.freeGengines, gp.additionGengines, GenginePool.freeGengines, GenginePool.additionGengines, gset(inlist, gp)
 //@   nopanic
 //@   loop 0 invariant nolock: !held(gp.getEngineLock) && !held(gp.runningLock) && !held(gp.additionLock)
@@ -119,7 +119,7 @@ package engine
 //@   props C10 C16 C08
 //@   entry nolocks
 //@   ensures [C10] agreement: (result.1 == nil) <==> (!blank(ruleStr) && !LexErrs(ruleStr) && !SynErrs(ruleStr) && !SemErrs(ruleStr))
-//@   ensures [C08] built: result.1 == nil ==> fresh(result.0) && result.0 != nil && fresh(result.0.Kc) && wfKc(result.0.Kc) && result.0.Dc != nil && len(result.0.Kc.RuleEntities) > 0
+//@   ensures [C08,C16] built: result.1 == nil ==> fresh(result.0) && result.0 != nil && fresh(result.0.Kc) && wfKc(result.0.Kc) && result.0.Dc != nil && len(result.0.Kc.RuleEntities) > 0
 //@   ensures failed: result.1 != nil ==> result.0 == nil
 //@   modifies nothing
 //@   loop 0 invariant dc: dataContext != nil && fresh(dataContext) && dataContext.base != nil && fresh(dataContext.base) && !held(dataContext.lockBase)
@@ -248,7 +248,7 @@ package engine
 //@   entry nolocks
 //@   requires poolShape(gp)
 //@   guardfield builder.RuleBuilder.Kc by gp.updateLock
-//@   ensures [C17] took: result.1 == nil && wrapperOK(gp, result.0) && gget(inlist, result.0) == 0
+//@   ensures [C17,C06] took: result.1 == nil && wrapperOK(gp, result.0) && gget(inlist, result.0) == 0
 //@   ensures [C07] snapshot: result.0.rulebuilder != nil && fresh(result.0.rulebuilder) && wfKc(result.0.rulebuilder.Kc)
 //@   ensures [C06] owncontext: result.0.rulebuilder.Dc == gp.rbSlice[result.0.tag].Dc && result.0.rulebuilder.Dc != nil
 //@   modifies frame poolrequest
@@ -261,7 +261,7 @@ package engine
 //@   entry nolocks
 //@   requires poolShape(gp)
 //@   guardfield builder.RuleBuilder.Kc by gp.updateLock
-//@   ensures [C17] took: result.1 == nil && wrapperOK(gp, result.0) && gget(inlist, result.0) == 0
+//@   ensures [C17,C06] took: result.1 == nil && wrapperOK(gp, result.0) && gget(inlist, result.0) == 0
 //@   ensures [C07] snapshot: result.0.rulebuilder != nil && fresh(result.0.rulebuilder) && wfKc(result.0.rulebuilder.Kc)
 //@   ensures [C06] owncontext: result.0.rulebuilder.Dc == gp.rbSlice[result.0.tag].Dc && result.0.rulebuilder.Dc != nil
 //@   modifies frame poolrequest
@@ -545,7 +545,7 @@ package engine
 //@     after A0 := arr(arg0)
 //@   ensures [C07] freshcontainer: fresh(rb.Kc)
 //@   ensures [C08,C04,C16,C05,C14,C12,C13,C07] merged: wfKc(rb.Kc)
-//@   ensures [C08] view: (forall k: string :: (k in rb.Kc.RuleEntities) <==> ((k in OLD.RuleEntities) || (k in kc.RuleEntities))) && (forall k: string :: (k in kc.RuleEntities) ==> rb.Kc.RuleEntities[k] == kc.RuleEntities[k]) && (forall k: string :: (k in OLD.RuleEntities) && !(k in kc.RuleEntities) ==> rb.Kc.RuleEntities[k] == OLD.RuleEntities[k])
+//@   ensures [C08,C16] view: (forall k: string :: (k in rb.Kc.RuleEntities) <==> ((k in OLD.RuleEntities) || (k in kc.RuleEntities))) && (forall k: string :: (k in kc.RuleEntities) ==> rb.Kc.RuleEntities[k] == kc.RuleEntities[k]) && (forall k: string :: (k in OLD.RuleEntities) && !(k in kc.RuleEntities) ==> rb.Kc.RuleEntities[k] == OLD.RuleEntities[k])
 //@   modifies rb.Kc
 //@   panicsafe
 //@   nopanic
